@@ -5,7 +5,8 @@
    variables lua_from_lines / lua_to_lines): what the theorems need from the lexer stack is stated as
    explicit hypotheses (sanity re-lex succeeds, the echo writer's last chunk is not empty, echo_stable). *)
 From PV Require Import Base.Prelude Model.P8File Spec.P8Format Spec.P8FileSpec
-  Proofs.P8FileWrite Proofs.P8FileRoundtrip Proofs.P8FileRewrite.
+  Proofs.P8FileWrite Proofs.P8FileRoundtrip Proofs.P8FileRewrite
+  Generated.T_lexer Model.Lexer Model.EchoWriter Proofs.LexerChunk Proofs.P8FileLua.
 
 Section C03.
 Variable lua : Type.
@@ -56,6 +57,25 @@ End C03.
 Print Assumptions C03_roundtrip.
 Print Assumptions C03_ended_flag.
 Print Assumptions C03_rewrite_identical.
+
+(* The same with the Lua object instantiated by the lexer model (Model/Lexer.v, regenerated tables) and the
+   echo writer (Model/EchoWriter.v): for every cart whose Lua object came out of the lexer, the file is written,
+   reading it back re-lexes the written text successfully (no hypothesis), the re-read object echoes exactly
+   that text with the final newline supplied, the regions / label / version are the same, and re-writing
+   gives the identical file. Still assumed: the writer's own sanity re-lex of its echoed lines succeeds
+   (once for the cart, once for the re-read cart) - a statement about lexing line chunks that end in a
+   newline TOKEN rather than in a line feed - and that the parser accepts what the lexer accepts. *)
+Theorem C03_roundtrip_lexer : forall (c : lex_cart) l0,
+  wf_cart (list tok) echo c -> from_lexer c ->
+  model_lex (echo (c_lua c)) = Ok l0 ->
+  code_in_format (concat (echo (c_lua c))) = true ->
+  exists file l',
+    lex_write c = Ok file /\
+    lex_read file = Ok (norm_cart (list tok) c l') /\
+    concat (echo l') = supply_nl (concat (echo (c_lua c))) /\
+    (forall l1, model_lex (echo l') = Ok l1 -> lex_write (norm_cart (list tok) c l') = Ok file).
+Proof. exact p8_roundtrip_lexer. Qed.
+Print Assumptions C03_roundtrip_lexer.
 
 (* non-vacuity: with the identity lexer, a concrete cart (glyph bytes in a comment, no final newline,
    a label) meets every hypothesis *)
